@@ -56,4 +56,60 @@ CHECKS = {
         "faults_na": NO_TARGET,
         "run_timeout": 600,
     },
+    "C15": {
+        "prop": "C15",
+        "level": "fault_enumeration",
+        "families": [("controller_recursion", 48, 1)],
+        "rule": "one run = the unmodified scripts/rdd2_sim.py node stepped for 400-3000 ticks by a simulated timer (jitter, missed, long, "
+                "duplicate ticks) while a simulated pilot moves the sticks and switches input / control modes and a glitch process acts "
+                "between plant and controller (quaternion sign flips, attitude / position jumps, stale state, forced position reset), with "
+                "per-run randomised gains and limits; every call of the nine controller functions is judged at the call boundary, the "
+                "memory fed back by the node is checked across steps; distinct = distinct interleaving signature (sequence of function "
+                "calls and ticks); non-trivial = at least one fault / pilot operation / knob randomisation fired",
+        "real": ["scripts/rdd2_sim.py Simulator (timer_callback, update_controller, joy_callback, controller memory)", "models.rdd2 / rdd2_loglinear controller functions",
+                 "models.quadrotor plant + CVODES"],
+        "stub": ["rclpy / geometry_msgs / nav_msgs / sensor_msgs / rosgraph_msgs / synapse_msgs / tf2_ros (in-process fakes)", "pilot", "glitch injector", "timer"],
+        "assumptions": ["time steps are >= 1 ms (dt = 0 is not a time step)", "bezier mode is not driven (needs trajectory messages)",
+                        "the choice between theta and theta - 2 pi for the commanded rotation is not demanded, only the zero set and the reached attitude",
+                        "within 1e-3 rad of a 180 degree error the law is not judged (ill-conditioned)"],
+        "faults_na": NO_TARGET,
+        "run_timeout": 900,
+    },
+    "C17": {
+        "prop": "C17",
+        "level": "exploration",
+        "families": [("hover_convergence", 32, 1)],
+        "rule": "one run = the unmodified scripts/rdd2_sim.py node (plant, cascade, gains, allocation as wired in the script) at its nominal 100 Hz "
+                "on the simulated clock for 25 s (position cascade) or 30 s (SE_2(3) log-linear cascade) from a seeded initial condition: position "
+                "within 3 m of the commanded hover point, tilt <= 60 deg about a random axis with random yaw and either quaternion sign, body "
+                "velocity and rates in +-1.5, rotors at hover speed or at rest; invariants every tick (finite state, motor commands in "
+                "[0, sqrt(F_max/CT)]), bounded-liveness oracle on the late part of the trajectory; distinct = distinct initial-condition cell "
+                "(mode, distance, tilt bucket, speed, rate, rotors, quaternion sign, leash / ground contact / saturation reached); every run is "
+                "non-trivial",
+        "real": ["scripts/rdd2_sim.py Simulator", "models.quadrotor (plant, CVODES)", "models.rdd2 / rdd2_loglinear controllers and allocator", "sensor noise as the script has it (seeded)"],
+        "stub": ["rclpy / *_msgs / tf2_ros (in-process fakes)", "timer on the simulated clock", "pilot (mode buttons, centred sticks)"],
+        "assumptions": ["convergence target is the node's own position set-point (the script's 2 m leash drags it while the vehicle is far away); it must come to rest",
+                        "'a few centimetres' = 0.05 m, tilt 0.02 rad, rates 0.05 rad/s, for all t >= 20 s / 25 s (measured: <= 2 mm, 2e-5 rad from 15 s on)",
+                        "fault-free configuration only: the property states none"],
+        "faults_na": NO_TARGET + ["tick jitter / sensor glitches: outside what C17 states (they are verdict-bearing for C15)"],
+        "run_timeout": 900,
+    },
+    "C08": {
+        "prop": "C08",
+        "level": "exploration",
+        "families": [("ins_bench", 192, 3), ("ins_flight", 16, 1)],
+        "rule": "ins_bench: two INS replicas consume the same seeded piecewise-constant IMU segments (|w| from 0 exactly to 50 rad/s on both "
+                "sides of the small-angle switch, |a| to 100 m/s^2, g in {0, 1.62, 9.8, 9.80665, 24.8}, durations 1 ms - 10 s) on different "
+                "seeded tick schedules (duplicate ticks with dt = 0, missed ticks, 1e-9 first steps); every step is compared with the exact "
+                "flow in 40-digit arithmetic, both replicas with each other and with the exact flow at every segment boundary.  ins_flight: the "
+                "real rdd2_sim node with use_estimator = True under tick jitter / missed / long / short ticks, every INS call compared with the "
+                "exact flow and with a seeded split of the same step.  distinct = distinct interleaving signature of the tick schedule; "
+                "non-trivial = more steps than segment boundaries (bench) / at least one timing fault (flight)",
+        "real": ["models.rdd2.derive_strapdown_ins_propagation (lie.SE23Quat.exp_mixed / calculate_N / SO3Quat.exp)", "scripts/rdd2_sim.py update_estimator wiring (ins_flight)"],
+        "stub": ["IMU segment source and the two replica timers (ins_bench)", "ROS fakes and timer (ins_flight)"],
+        "assumptions": ["weakest fit of the family (stated in DESIGN): the step function is pure; what simulation adds is the sequence - composition over "
+                        "arbitrary tick schedules and error growth over histories", "tolerance 5e-13 * scale per step (worst observed ~2e-16)"],
+        "faults_na": NO_TARGET,
+        "run_timeout": 900,
+    },
 }
